@@ -390,6 +390,9 @@ func rulesC17(c *Ctx) {
 	c.Rule("executions")
 	c01Leaf(c)
 	c17RecordCallers(c)
+	// "attempts rejected by a breaker, bulkhead or rate limiter count as attempts but not as executions": a rejection
+	// by PreExecute returns without running anything inside
+	c01BaseApply(c)
 	witnessRules(c, "C17")
 	c.Rule("last-outcome")
 	retryLoop(c, map[string]bool{"recheck": true, "listeners": true})
